@@ -149,7 +149,7 @@ func main() {
 		r.Finish()
 	}
 	e := &env{r: r, w: w, n: w.N, ts: 6000}
-	nprog := r.N(1500, 40000)
+	nprog := r.N(1500, 12000)
 	height := int64(2)
 	var block []*pb.Transaction
 	for i := 0; i < nprog; i++ {
@@ -261,7 +261,7 @@ func (e *env) program(rng *rand.Rand, i int, block *[]*pb.Transaction) {
 	// ---- tamper oracle on a sample of the random programs (read / write set only: whether an
 	// edited request must be rejected depends on the program's meaning, which only the fixed
 	// corpus items make decidable) ----
-	if every := r.N(20, 4); i%every == 0 && len(x.TxOutputsExt) > 0 {
+	if every := r.N(20, 10); i%every == 0 && len(x.TxOutputsExt) > 0 {
 		it := corpus.Item{Name: "program", Tx: x, Signers: []*sn.Key{k}}
 		for _, m := range mutate.All(x) {
 			f := m.Field()
